@@ -753,6 +753,9 @@ func (vc *VC) applyCall(ci *callInfo) []string {
 		vc.callFrameCheck(ci, fc)
 	}
 	vc.callEffect(ci, fc)
+	if ci.instr != nil && ci.kind != "defer-reg" {
+		vc.havocSharedLocals(ci.instr)
+	}
 	// results
 	var res []string
 	if ci.sig != nil {
